@@ -15,10 +15,12 @@ def parseCall (s : String) : Option Call :=
 
 /-- concrete world: document d has attribute store `attrsOf[d]`; html encodes (d, gBuild, gRender) injectively;
     okbits = parses, valbits = has a validation error -/
-def world (okbits valbits : String) (attrsOf : List Nat) : World :=
+def world (okbits valbits statebits : String) (attrsOf : List Nat) : World :=
   { parse := fun d => if (okbits.toList.getD d '0') == '1' then .ok () else .error d,
     attrs := fun d => attrsOf.getD d 0,
-    html := fun d gb gr => 1 + d * 10000 + gb * 100 + gr,
+    html := fun d gb gr seen => 1 + d * 10000 + gb * 100 + gr +
+      (if (statebits.toList.getD d '0') == '1' && seen.length > 0 then 1000000 else 0) +
+      (if seen.any (· != gb) then 2000000 else 0),
     validation := fun d => if (valbits.toList.getD d '0') == '1' then some d else none,
     reorder := id }
 
@@ -27,16 +29,21 @@ def showRes (w : World) (c : Call) (r : Res) : String :=
   let f := fresh w c
   match c, r with
   | .renderTree _, .ok h =>
+    let tainted := h > 2000000
+    let h := if tainted then h - 2000000 else h
+    let again := h > 1000000
+    let h := if again then h - 1000000 else h
     let d := (h - 1) / 10000; let gb := ((h - 1) % 10000) / 100; let gr := (h - 1) % 100
-    if gb == w.attrs d && gr == w.attrs d then s!"tree-own:{d}" else s!"tree-stale:{d}:{gb}:{gr}"
+    if again then s!"tree-again:{d}"
+    else if gb == w.attrs d && gr == w.attrs d && !tainted then s!"tree-own:{d}" else s!"tree-stale:{d}:{gb}:{gr}"
   | .renderTree _, .noSuchTree => "no-tree"
   | _, r => if r == f then "same" else "DIFFERENT"
 
 def handle (args : List String) : String :=
   match args with
-  | okbits :: valbits :: ats :: calls =>
+  | okbits :: valbits :: statebits :: ats :: calls =>
     let attrsOf := (ats.splitOn ",").filterMap String.toNat?
-    let w := world okbits valbits attrsOf
+    let w := world okbits valbits statebits attrsOf
     Id.run do
       let mut s := init
       let mut out : Array String := #[]
